@@ -726,7 +726,16 @@ func (m *Machine) setupModels() {
 		if len(st.src) == 0 {
 			return Tuple{goInt(0), m.eof()}
 		}
-		n := copy(p.V, st.src)
+		// a decompressor is an io.Reader like any other: one Read may return
+		// fewer bytes than asked for (flate returns at most one 32 KiB window)
+		n := len(p.V)
+		if len(st.src) < n {
+			n = len(st.src)
+		}
+		if n > 1 && m.choose(2) == 1 {
+			n = (n + 1) / 2
+		}
+		copy(p.V[:n], st.src[:n])
 		st.src = st.src[n:]
 		return Tuple{goInt(n), nilErr()}
 	})
